@@ -18,6 +18,11 @@
 (*   BufOK        a sub-buffer's limit is L minus the size of its parent      *)
 (*   WriteOK      a write raises exactly when the buffer would exceed its     *)
 (*                limit (UTF-8 bytes) (C07)                                   *)
+(*   NamespaceOK  assign raises exactly when the measured size of the locals   *)
+(*                plus the carried size exceeds M; CopyNsOK: a copy carries    *)
+(*                everything its callers hold (C07)                           *)
+(*   DepthOK      extend refuses exactly when the scope chain is longer than   *)
+(*                the context depth limit (C09)                               *)
 (*   ErrorOK      Environment.error raises in STRICT, warns in WARN, is       *)
 (*                silent in LAX (C03)                                         *)
 EXTENDS Integers, Sequences, FiniteSets, TLC, Json, IOUtils
@@ -51,12 +56,28 @@ Step ==
   /\ CASE E.e = "Ctx" ->          \* RenderContext.__init__: the top-level context of the render, or the body of a copy (announced again by Copy)
             /\ Need(E.c = Len(ctxs) + 1, "CtxNumbering", E.c, Len(ctxs) + 1)
             /\ ctxs' = Append(ctxs, [loops |-> <<>>, carries |-> <<>>, base |-> E.n,
-                                     ghost |-> IF E.p = 0 THEN 1 ELSE GhostProduct(ctxs[E.p]), depth |-> 0])
+                                     ghost |-> IF E.p = 0 THEN 1 ELSE GhostProduct(ctxs[E.p]), depth |-> 0, held |-> 0, nscarry |-> 0, cd |-> 0])
             /\ UNCHANGED bufs
        [] E.e = "Copy" ->
             /\ Need(E.n = (IF E.f THEN MechProduct(ctxs[E.p]) ELSE 1), "CopyOK", E.n, MechProduct(ctxs[E.p]))
             /\ UNCHANGED <<ctxs, bufs>>
-       [] E.e = "Push" -> SetCtx(E.c, [ctxs[E.c] EXCEPT !.depth = @ + 1]) /\ UNCHANGED bufs
+       [] E.e = "Push" ->             \* n = length of the scope chain after the push: it was <= D before, or the push would have been refused
+            /\ Need(T.D = -1 \/ E.n - 1 <= T.D, "DepthOK", E.n, T.D)
+            /\ SetCtx(E.c, [ctxs[E.c] EXCEPT !.depth = @ + 1]) /\ UNCHANGED bufs
+       [] E.e = "PushRefused" ->      \* ContextDepthError from extend: only when the chain is already longer than the limit
+            /\ Need(T.D # -1 /\ E.n > T.D, "DepthOK", E.n, T.D)
+            /\ UNCHANGED <<ctxs, bufs>>
+       [] E.e = "Assign" ->           \* n = measured size of this context's locals after the assignment (sys.getsizeof, by the recorder)
+            LET total == E.n + ctxs[E.c].nscarry
+            IN /\ Need((E.o = "raise") <=> (T.M # -1 /\ total > T.M), "NamespaceOK", total, T.M)
+               /\ SetCtx(E.c, [ctxs[E.c] EXCEPT !.held = E.n]) /\ UNCHANGED bufs
+       [] E.e = "CopyDepth" ->        \* every copy is one level deeper than the context it was copied from, and was allowed only within the limit
+            /\ Need(E.n = ctxs[E.p].cd + 1, "CopyDepthOK", E.n, ctxs[E.p].cd + 1)
+            /\ Need(T.D = -1 \/ ctxs[E.p].cd <= T.D, "DepthOK", ctxs[E.p].cd, T.D)
+            /\ SetCtx(E.c, [ctxs[E.c] EXCEPT !.cd = E.n]) /\ UNCHANGED bufs
+       [] E.e = "CopyNs" ->           \* the child's carried size is everything its callers hold: the parent's locals + the parent's own carry
+            /\ Need(E.n = ctxs[E.p].held + ctxs[E.p].nscarry, "CopyNsOK", E.n, ctxs[E.p].held + ctxs[E.p].nscarry)
+            /\ SetCtx(E.c, [ctxs[E.c] EXCEPT !.nscarry = E.n]) /\ UNCHANGED bufs
        [] E.e = "Pop" ->
             /\ Need(ctxs[E.c].depth > 0, "Balanced", E.c, ctxs[E.c].depth)
             /\ SetCtx(E.c, [ctxs[E.c] EXCEPT !.depth = @ - 1]) /\ UNCHANGED bufs
